@@ -15,7 +15,19 @@ Definition pend1 (now : N) (e : entry) : list (N * fev) :=
                   else (now + d, EvExit (Some (en_mod e)) (peer (en_mod e)) i)]
   | _ => []
   end.
-Definition pend_of (now : N) (l : list entry) : list (N * fev) := flat_map (pend1 now) l.
+(* After a caught panic the module is inactive: what it still sends to the peer without delay
+   is dropped at its own gate (MessageExitingConnection::handle_with_sink), everything else
+   is buffered as before. *)
+Definition is_panic_e (e : entry) : bool := match en_hook e with HPanic => true | _ => false end.
+Definition inline_send (e : entry) : bool := match en_hook e with HSend d _ => d =? 0 | _ => false end.
+Definition has_panic (l : list entry) : bool := existsb is_panic_e l.
+
+Fixpoint pend_from (now : N) (dd : bool) (l : list entry) : list (N * fev) :=
+  match l with
+  | [] => []
+  | e :: r => (if dd && inline_send e then [] else pend1 now e) ++ pend_from now (dd || is_panic_e e) r
+  end.
+Definition pend_of (now : N) (l : list entry) : list (N * fev) := pend_from now false l.
 
 (* the shutdown request standing at the end of a log (the last one wins) *)
 Definition shut_of (now : N) (l : list entry) (init : option (option N)) : option (option N) :=
@@ -23,38 +35,47 @@ Definition shut_of (now : N) (l : list entry) (init : option (option N)) : optio
                           | HShut r => Some (match r with Some d => Some (now + d) | None => None end)
                           | _ => acc end) l init.
 
-Lemma pend_of_app now a b : pend_of now (a ++ b) = pend_of now a ++ pend_of now b.
-Proof. apply flat_map_app. Qed.
+Lemma pend_from_app now : forall a b dd,
+  pend_from now dd (a ++ b) = pend_from now dd a ++ pend_from now (dd || has_panic a) b.
+Proof.
+  induction a as [|e a IH]; intros b dd; cbn [app pend_from has_panic existsb].
+  - rewrite orb_false_r. reflexivity.
+  - rewrite IH, <- app_assoc, orb_assoc. reflexivity.
+Qed.
+
+Lemma has_panic_app a b : has_panic (a ++ b) = has_panic a || has_panic b.
+Proof. apply existsb_app. Qed.
 
 Lemma shut_of_app now a b i : shut_of now (a ++ b) i = shut_of now b (shut_of now a i).
 Proof. apply fold_left_app. Qed.
 
 Definition ExtB (now : N) (s s' : es) : Prop :=
-  exists suf, lg s' = lg s ++ suf /\ buf s' = buf s ++ pend_of now suf /\ shut s' = shut_of now suf (shut s).
+  exists suf, lg s' = lg s ++ suf /\ buf s' = buf s ++ pend_from now (dead s) suf /\
+              shut s' = shut_of now suf (shut s) /\ dead s' = dead s || has_panic suf.
 
 Lemma ExtB_refl now s : ExtB now s s.
-Proof. exists []. cbn. rewrite !app_nil_r. auto. Qed.
+Proof. exists []. cbn. rewrite !app_nil_r, orb_false_r. auto. Qed.
 
 Lemma ExtB_trans now s1 s2 s3 : ExtB now s1 s2 -> ExtB now s2 s3 -> ExtB now s1 s3.
 Proof.
-  intros (a & La & Ba & Sa) (b & Lb & Bb & Sb). exists (a ++ b).
-  rewrite Lb, La, Bb, Ba, Sb, Sa, pend_of_app, shut_of_app, !app_assoc. auto.
+  intros (a & La & Ba & Sa & Da) (b & Lb & Bb & Sb & Db). exists (a ++ b).
+  rewrite Lb, La, Bb, Ba, Sb, Sa, Db, Da, pend_from_app, shut_of_app, has_panic_app, !app_assoc, orb_assoc. auto.
 Qed.
 
 Lemma ExtB_say now m w h s : is_call (mk m w h) = true -> ExtB now s (say m w h s).
 Proof.
-  intros Hc. exists [mk m w h]. cbn [say lg buf shut]. split; [reflexivity|].
+  intros Hc. exists [mk m w h]. cbn [say lg buf shut dead]. split; [reflexivity|].
   unfold is_call in Hc. cbn [en_hook mk] in Hc.
-  unfold pend_of, pend1, shut_of. cbn [flat_map fold_left en_hook mk].
-  destruct h; try discriminate; rewrite ?app_nil_r; auto.
+  cbn [pend_from]. unfold has_panic, is_panic_e, inline_send, pend1, shut_of. cbn [existsb fold_left en_hook mk].
+  destruct h; try discriminate; rewrite ?andb_false_r, ?app_nil_r, ?orb_false_r; auto.
 Qed.
 
 Lemma ExtB_emit1 now m w e s : ExtB now s (emit1 now m w e s).
 Proof.
   unfold emit1. destruct (bud s =? 0); [apply ExtB_refl|].
-  eexists. cbn [lg buf shut]. split; [reflexivity|].
-  unfold pend_of, pend1, shut_of, pending. cbn [flat_map fold_left en_hook en_mod].
-  destruct (e_peer e); cbn [app]; auto.
+  eexists. cbn [lg buf shut dead]. split; [reflexivity|].
+  cbn [pend_from]. unfold has_panic, is_panic_e, inline_send, pend1, shut_of, pending. cbn [existsb fold_left en_hook en_mod].
+  destruct (e_peer e), (dead s), (e_delay e =? 0); cbn [andb orb app]; rewrite ?app_nil_r; auto.
 Qed.
 
 Lemma ExtB_emits now m w l : forall s, ExtB now s (emits now m w l s).
@@ -65,6 +86,13 @@ Qed.
 
 Lemma ExtB_say_emits now m w h l s : is_call (mk m w h) = true -> ExtB now s (emits now m w l (say m w h s)).
 Proof. intros Hc. eapply ExtB_trans; [apply ExtB_say, Hc|apply ExtB_emits]. Qed.
+
+Lemma ExtB_panic_if now b m s : ExtB now s (panic_if b m s).
+Proof.
+  unfold panic_if. destruct b; [|apply ExtB_refl].
+  exists [mk m Handler HPanic]. cbn [lg buf shut dead say]. split; [reflexivity|].
+  cbn. rewrite andb_false_r, app_nil_r, orb_true_r. auto.
+Qed.
 
 Lemma ExtB_upstream now m : forall els i msg s, ExtB now s (snd (incoming_upstream now m i els msg s)).
 Proof.
@@ -82,15 +110,17 @@ Qed.
 
 Lemma ExtB_handler_part now m h k msg s : ExtB now s (handler_part now m h k msg s).
 Proof.
-  destruct k as [x| |st|]; cbn [handler_part]; try apply ExtB_refl; try (apply ExtB_say_emits; reflexivity).
+  destruct k as [x| |st|]; cbn [handler_part]; try apply ExtB_refl.
+  2: { eapply ExtB_trans; [apply (ExtB_say_emits now m Handler (HSimStart st now)); reflexivity|apply ExtB_panic_if]. }
+  2: { eapply ExtB_trans; [apply (ExtB_say_emits now m Handler (HSimEnd now)); reflexivity|apply ExtB_panic_if]. }
   destruct msg as [y|]; [|apply ExtB_refl].
   set (s1 := emits now m Handler (h_msg h) (say m Handler (HHandle y now) s)).
   assert (E1 : ExtB now s s1) by (apply ExtB_say_emits; reflexivity).
-  destruct (h_extra h) as [|d|trig r]; try exact E1.
+  destruct (h_extra h) as [|d|trig r|site trig]; try (eapply ExtB_trans; [exact E1|apply ExtB_panic_if]).
   destruct (y =? trig); [|exact E1].
   eapply ExtB_trans; [exact E1|].
-  exists [mk m Handler (HShut r)]. cbn [lg buf shut say]. split; [reflexivity|].
-  unfold pend_of, shut_of. cbn. rewrite app_nil_r. auto.
+  exists [mk m Handler (HShut r)]. cbn [lg buf shut dead say]. split; [reflexivity|].
+  cbn. rewrite andb_false_r, app_nil_r, orb_false_r. auto.
 Qed.
 
 Lemma ExtB_poll_tasks now m h woken s : ExtB now s (poll_tasks now m h woken s).
@@ -108,28 +138,37 @@ Qed.
 (* one bracket: what it buffered is what its log says *)
 Lemma run_bracket_buf now m c woken k s :
   let r := run_bracket now m c woken k s in
-  buf (fst r) = buf s ++ pend_of now (b_log (snd r)) /\ shut (fst r) = shut_of now (b_log (snd r)) (shut s).
+  buf (fst r) = buf s ++ pend_from now (dead s) (b_log (snd r)) /\
+  shut (fst r) = shut_of now (b_log (snd r)) (shut s) /\
+  dead (fst r) = dead s || has_panic (b_log (snd r)).
 Proof.
   unfold run_bracket. cbn [fst snd b_log].
-  destruct (ExtB_bracket now m c woken k {| lg := []; buf := buf s; bud := bud s; shut := shut s |}) as (suf & Hl & Hb & Hs).
-  cbn [lg buf shut app] in *. rewrite Hl. auto.
+  destruct (ExtB_bracket now m c woken k {| lg := []; buf := buf s; bud := bud s; shut := shut s; dead := dead s |})
+    as (suf & Hl & Hb & Hs & Hd).
+  cbn [lg buf shut dead app] in *. rewrite Hl. auto.
 Qed.
 
 Definition brks_log (bs : list brk) : list entry := flat_map b_log bs.
 
 Lemma module_restart_buf now m c : forall l s acc,
-  let r := fold_left (fun acc stage => let '(s1, b) := at_sim_start now m c false stage (fst acc) in (s1, snd acc ++ [b])) l (s, acc) in
+  let r := fold_left (fun acc stage => if dead (fst acc) then acc else
+                        let '(s1, b) := at_sim_start now m c false stage (fst acc) in (s1, snd acc ++ [b])) l (s, acc) in
   exists new, snd r = acc ++ new /\
-    buf (fst r) = buf s ++ pend_of now (brks_log new) /\ shut (fst r) = shut_of now (brks_log new) (shut s).
+    buf (fst r) = buf s ++ pend_from now (dead s) (brks_log new) /\
+    shut (fst r) = shut_of now (brks_log new) (shut s) /\
+    dead (fst r) = dead s || has_panic (brks_log new).
 Proof.
   induction l as [|st l IH]; intros s acc; cbn [fold_left].
-  - exists []. cbn. rewrite !app_nil_r. auto.
-  - cbn [fst snd]. change (at_sim_start now m c false st s) with (run_bracket now m c false (KStart st) s).
-    pose proof (run_bracket_buf now m c false (KStart st) s) as [Hb Hs].
-    destruct (run_bracket now m c false (KStart st) s) as [s1 b]. cbn [fst snd] in Hb, Hs.
-    destruct (IH s1 (acc ++ [b])) as (new & Hn & Hb' & Hs').
-    exists (b :: new). split; [rewrite Hn, <- app_assoc; reflexivity|].
-    unfold brks_log in *. cbn [flat_map]. rewrite pend_of_app, shut_of_app, Hb', Hs', Hb, Hs, app_assoc. auto.
+  - exists []. cbn. rewrite !app_nil_r, orb_false_r. auto.
+  - cbn [fst snd]. destruct (dead s) eqn:Hd.
+    + destruct (IH s acc) as (new & Hn & Hb & Hs & Hd'). rewrite Hd in Hb, Hd'. exists new. auto.
+    + change (at_sim_start now m c false st s) with (run_bracket now m c false (KStart st) s).
+      pose proof (run_bracket_buf now m c false (KStart st) s) as (Hb & Hs & Hdd).
+      destruct (run_bracket now m c false (KStart st) s) as [s1 b]. cbn [fst snd] in Hb, Hs, Hdd.
+      destruct (IH s1 (acc ++ [b])) as (new & Hn & Hb' & Hs' & Hd').
+      exists (b :: new). split; [rewrite Hn, <- app_assoc; reflexivity|].
+      unfold brks_log in *. cbn [flat_map].
+      rewrite pend_from_app, shut_of_app, has_panic_app, Hb', Hs', Hd', Hb, Hs, Hdd, Hd, !app_assoc, !orb_assoc. auto.
 Qed.
 
 (* ---- the event set after one event ---- *)
@@ -167,8 +206,9 @@ Lemma pend_shut_reset now m l o :
   pend_of now (l ++ match o : option (option N) with Some _ => [mk m Handler HReset] | None => [] end) = pend_of now l /\
   forall i, shut_of now (l ++ match o with Some _ => [mk m Handler HReset] | None => [] end) i = shut_of now l i.
 Proof.
-  destruct o; rewrite ?app_nil_r; [|auto]. split; [rewrite pend_of_app; cbn; apply app_nil_r|].
-  intros i. rewrite shut_of_app. reflexivity.
+  destruct o; rewrite ?app_nil_r; [|auto]. split.
+  - unfold pend_of. rewrite pend_from_app. cbn. rewrite andb_false_r. cbn. apply app_nil_r.
+  - intros i. rewrite shut_of_app. reflexivity.
 Qed.
 
 Lemma flat_map_map_IBrk bs : flat_map item_log (map IBrk bs) = brks_log bs.
@@ -181,21 +221,21 @@ Proof.
   intros Hm. unfold process, fes_after. destruct ev as [chk dst x|m' x|m'|m']; [discriminate|..]; injection Hm as ->.
   - destruct (activate t (mstate w m)) as [woken ms].
     destruct (active ms); [|cbn [fst snd flat_map]; rewrite w_fes_set_mst; reflexivity].
-    unfold handle_message. pose proof (run_bracket_buf t m (cfg sc m) woken (KMsg x) (es0 (w_bud w))) as [Hb Hs].
-    destruct (run_bracket t m (cfg sc m) woken (KMsg x) (es0 (w_bud w))) as [s b]. cbn [fst snd es0 buf shut app] in Hb, Hs.
+    unfold handle_message. pose proof (run_bracket_buf t m (cfg sc m) woken (KMsg x) (es0 (w_bud w))) as (Hb & Hs & _).
+    destruct (run_bracket t m (cfg sc m) woken (KMsg x) (es0 (w_bud w))) as [s b]. cbn [fst snd es0 buf shut dead app] in Hb, Hs. fold (pend_of t (b_log b)) in Hb.
     rewrite finish_event_fes, finish_event_log. cbn [flat_map item_log]. rewrite app_nil_r.
     destruct (pend_shut_reset t m (b_log b) (shut s)) as [-> ->]. rewrite <- Hb, <- Hs. reflexivity.
   - destruct (activate t (mstate w m)) as [woken ms].
     destruct (active ms); [|cbn [fst snd flat_map]; rewrite w_fes_set_mst; reflexivity].
-    unfold async_wakeup. pose proof (run_bracket_buf t m (cfg sc m) woken KWake (es0 (w_bud w))) as [Hb Hs].
-    destruct (run_bracket t m (cfg sc m) woken KWake (es0 (w_bud w))) as [s b]. cbn [fst snd es0 buf shut app] in Hb, Hs.
+    unfold async_wakeup. pose proof (run_bracket_buf t m (cfg sc m) woken KWake (es0 (w_bud w))) as (Hb & Hs & _).
+    destruct (run_bracket t m (cfg sc m) woken KWake (es0 (w_bud w))) as [s b]. cbn [fst snd es0 buf shut dead app] in Hb, Hs. fold (pend_of t (b_log b)) in Hb.
     rewrite finish_event_fes, finish_event_log. cbn [flat_map item_log]. rewrite app_nil_r.
     destruct (pend_shut_reset t m (b_log b) (shut s)) as [-> ->]. rewrite <- Hb, <- Hs. reflexivity.
   - destruct (activate t (mstate w m)) as [woken ms]. unfold module_restart.
     destruct (module_restart_buf t m (cfg sc m) (stage_list (h_stages (m_handler (cfg sc m)))) (es0 (w_bud w)) [])
-      as (new & Hn & Hb & Hs).
+      as (new & Hn & Hb & Hs & _).
     destruct (fold_left _ (stage_list (h_stages (m_handler (cfg sc m)))) (es0 (w_bud w), [])) as [s bs].
-    cbn [fst snd es0 buf shut app] in Hn, Hb, Hs. subst bs.
+    cbn [fst snd es0 buf shut dead app] in Hn, Hb, Hs. fold (pend_of t (brks_log new)) in Hb. subst bs.
     rewrite finish_event_fes, finish_event_log, flat_map_map_IBrk.
     destruct (pend_shut_reset t m (brks_log new) (shut s)) as [-> ->]. rewrite <- Hb, <- Hs. reflexivity.
 Qed.
